@@ -159,6 +159,14 @@ def pairs_xy(ctx):
         for _ in range(rng.randrange(2, 7)):
             s += rng.choice(enum).bs
         out.append(s)
+    # strings whose payload ends in the middle of a UTF-8 sequence / looks like the start of one / is empty, ints at
+    # width boundaries, each followed by EVERY possible next byte (an item's decoding may not look past its end)
+    special = [[0x62, 0x61, 0xC3], [0x61, 0xE2], [0x62, 0xE2, 0x82], [0x63, 0xF0, 0x9F, 0x98], [0x61, 0xC3], [0x42, 0x61, 0xC3], [0x60], [0x40],
+               [0x78, 0x02, 0x61, 0xC3], [0x7F, 0x61, 0xC3, 0xFF], [0x5F, 0xFF], [0x9F, 0x9F, 0xFF, 0xFF], [0xBF, 0x61, 0xC3, 0x9F, 0xFF, 0xFF],
+               [0x81, 0x61, 0xC3], [0xC1, 0x61, 0xE2], [0x17], [0x18, 0x18], [0xF9, 0x7E, 0x00], [0xF5], [0x80], [0xA0]]
+    for x in special:
+        for t in range(256):
+            out.append(x + [t])
     return [cborgen.hx(b) for b in out]
 
 def seq_cases(ctx):
@@ -166,7 +174,7 @@ def seq_cases(ctx):
 
 reg(Prop("C14", ["Properties_C14"], [
     Stream("pairs", "seq", pairs_xy, args=(LDEF, CAP), flavours=("rel", "dbg"), nontrivial=lambda c, l: l.count("ok") >= 1,
-           rule="(x, y) pairs with x from the enumerated well-formed space and y the empty string, single bytes, other items or garbage, plus concatenations of 2..6 enumerated items; the harness decodes repeatedly at the offset advanced by bytes-read, each item presented with the exact remainder of the buffer; non-trivial = at least one item decoded"),
+           rule="(x, y) pairs with x from the enumerated well-formed space and y the empty string, single bytes, other items or garbage, plus concatenations of 2..6 enumerated items; strings ending inside / at the start of a UTF-8 sequence, empty strings, nested indefinite containers and boundary scalars each followed by every one of the 256 possible next bytes; the harness decodes repeatedly at the offset advanced by bytes-read, each item presented with the exact remainder of the buffer; non-trivial = at least one item decoded"),
 ], level_note="Theorems C14_suffix (frame lemma on the parser spec + head prefix-independence) and C14_sequence (from the C03 round trip); tied by the seq stream"))
 
 DEPTH_LS_QUICK = (1, 2, 3)
@@ -302,6 +310,8 @@ default_L_stream = lambda: Stream("depth-default-L", "loadpost", default_L_cases
                                   rule="the default build (L = %d): every container kind nested L-1, L and L+1 deep; decode + describe + size + serialize + copy + release, live-block count" % LDEF)
 PROPS["C02"].streams.append(default_L_stream())
 PROPS["C19"].streams.append(default_L_stream())
+PROPS["C03"].streams.append(default_L_stream())
+PROPS["C07"].streams.append(default_L_stream())
 PROPS["C04"].streams.append(Stream("limit-load", "hist", histgen.limit_load_cases(3), args=(3, CAP, "none", 0), flavours=("rel",), L=3, timeout=600,
                                    nontrivial=lambda c, l: True, rule="library rebuilt with CBOR_MAX_STACK_SIZE=3: cbor_load of inputs nested L-1 .. L+2 deep inside an API history: live blocks and allocator trace (a record leaked at the limit shows as a live block)"))
 
@@ -407,6 +417,9 @@ sethandle = lambda flavours=("rel",), env=None, name="set-handle": Stream(
 PROPS["C13"].streams += [sethandle(("rel",), {"HX_ALLOC": "tag"}, "set-handle-tag"), sethandle(("dbg",), None, "set-handle")]
 PROPS["C04"].streams.append(sethandle(("rel", "dbg")))
 PROPS["C16"].streams.append(sethandle(("rel",)))
+PROPS["C16"].streams.append(Stream("text-positions", "load", lambda ctx: [cborgen.hx(b) for b in cborgen.text_positions()], args=(LDEF, CAP), flavours=("rel", "dbg"),
+                                   spec="load_spec", nontrivial=not_trivial_load,
+                                   rule="text strings of every validity class (lone lead / continuation bytes, overlong, surrogate, beyond U+10FFFF, truncated, boundary scalars, NUL, empty) in every position: top level, array element, definite / indefinite map key and value, tag content, chunk, nested: cbor_load must accept each with the bytes intact (C16_content_preserved)"))
 
 # ---- third layer of client calls (model: coq/theories/HHist3.v, theorems: HHist3_proofs.v) ----
 API3_WORDS = ("ni ", "su ", "mku ", "mkn ", "nf ", "sf ", "nc", "sc ", "sb ", "bb ", "nn", "nu", "mv ", "pushmv ", "maddmv ", "tsetmv ", "btmv ",
